@@ -630,6 +630,17 @@ class ExprMixin:
                 self.o.dict_set(st2, self.o.r(d), vs[j].e, vs[j + 1].e)
             yield st2, d
 
+    def ev_Slice(self, st, e, cx):
+        """a slice object as a value (target of `x[a:b] = v` on a /repo class that defines __setitem__): an opaque new
+        `slice`; its bounds are evaluated for their effects only"""
+        parts = [p for p in (e.lower, e.upper, e.step) if p is not None]
+        for st1, vs in self.ev_seq(st, parts, cx):
+            if isinstance(vs, Raise):
+                yield st1, vs
+                continue
+            st2 = st1.clone()
+            yield st2, self.o.ref(st2.new_ref("slice"), "slice")
+
     # ------------------------------------------------------------------ subscript
     def ev_Subscript(self, st, e, cx):
         if isinstance(e.slice, ast.Slice):
